@@ -275,6 +275,46 @@ def gen_multi_true_history(rng):
     return h
 
 
+def gen_very_wide_history(rng):
+    """115-140 object variables with small domains (2-3 values, mostly without the exactly-one encoding so that creation is cheap),
+    created first; then new_eq on pairs whose decimal ids are digit-wise re-splittings of one another with 3-digit ids
+    ((1,112)/(11,12), (2,123)/(21,23), (12,130)/(121,30) ...), in both request orders; every request is judged (JQ)."""
+    h = Hist()
+    h.tags.add("very-wide")
+    n = rng.randint(115, 140)
+    for _ in range(n):
+        size = rng.choice([2, 2, 3])
+        vals = rng.sample([0, 1, 2, 3], size)
+        h.add("N", 1 if rng.random() < 0.15 else 0, *vals)
+    fams = []
+    for d in range(1000, 10000):
+        t = str(d)
+        if t[1] == "0" or t[2] == "0":
+            continue
+        p1, p2 = (int(t[0]), int(t[1:])), (int(t[:2]), int(t[2:]))
+        if max(p1) < n and max(p2) < n and p1[0] != p1[1] and p2[0] != p2[1]:
+            fams.append([p1, p2])
+    for d in range(10000, 20000):
+        t = str(d)
+        if t[2] == "0" or t[3] == "0":
+            continue
+        p1, p2 = (int(t[:2]), int(t[2:])), (int(t[:3]), int(t[3:]))
+        if max(p1) < n and max(p2) < n and p1[0] != p1[1] and p2[0] != p2[1]:
+            fams.append([p1, p2])
+    rng.shuffle(fams)
+    for fam in fams[:rng.randint(10, 16)]:
+        prs = list(fam)
+        rng.shuffle(prs)
+        for a, b in prs:
+            if rng.random() < 0.5:
+                a, b = b, a
+            h.add("Q", a, b)
+            if rng.random() < 0.3:
+                h.add("Q", b, a)
+        h.tags.add("resplit-3digit")
+    return h
+
+
 def corner_histories():
     out = []
 
